@@ -32,13 +32,15 @@ Proof.
   assert (Hs : NIs n1).
   { split; auto. simpl. repeat split; try lra. repeat constructor; simpl; lra. }
   split; [|split; [|split; [|split; [|split; [|split; [|split]]]]]].
-  - split; simpl; repeat constructor; auto.
-  - split; simpl; repeat constructor; auto.
+  - split; simpl; [constructor; [exact Hc|constructor]|constructor; [split; [exact Hn|reflexivity]|constructor]].
+  - split; simpl; [constructor; [exact Hc|constructor]|constructor; [exact Hn|constructor]].
   - reflexivity.
   - unfold SStep. cbn -[lif_elem nz to_current dot]. eexists; eexists; split; reflexivity.
   - exact Hs.
   - split; exact Hs.
   - unfold r_names_ok; simpl; repeat split; discriminate.
-  - eexists. split; [reflexivity|]. eapply biclique_new_wf. reflexivity.
+  - match goal with |- exists Bq, ?t = Ok Bq /\ _ => destruct t as [Bq|e] eqn:E end.
+    + exists Bq. split; [reflexivity|]. eapply biclique_new_wf. exact E.
+    + cbn in E. discriminate.
 Qed.
 Print Assumptions nonvacuous.
